@@ -59,17 +59,22 @@ fn judge(ctx: &mut Ctx, api: &str, bytes: &[u8], env: &REnv, types: &[RType], wa
     true
 }
 
-fn native_case(ctx: &mut Ctx, rng: &mut Rng) {
+fn native_case(ctx: &mut Ctx, rng: &mut Rng, wide: bool) {
     let n_types = reg::len();
-    let nargs = match rng.below(6) {
-        0 => 0,
-        1 | 2 | 3 => 1,
-        4 => 2,
-        _ => 3,
+    let nargs = if wide {
+        // enough distinct compound types for a type table with well over 64 entries
+        25 + rng.usize(40)
+    } else {
+        match rng.below(6) {
+            0 => 0,
+            1 | 2 | 3 => 1,
+            4 => 2,
+            _ => 3,
+        }
     };
     let picks: Vec<usize> = (0..nargs).map(|_| rng.usize(n_types)).collect();
     let seed = rng.next();
-    let fuel = *rng.pick(&[1i64, 8, 30, 80]);
+    let fuel = if wide { *rng.pick(&[1i64, 4, 10]) } else { *rng.pick(&[1i64, 8, 30, 80]) };
     let build = |picks: &[usize]| -> Result<(Vec<u8>, Vec<RValue>), String> {
         let mut r = Rng::new(seed);
         let mut b = IDLBuilder::new();
@@ -116,16 +121,62 @@ fn native_case(ctx: &mut Ctx, rng: &mut Rng) {
     for n in &names {
         ctx.count(&format!("cover:native:{}", n.split('<').next().unwrap_or("")));
     }
+    if let Ok(d) = decode(&bytes) {
+        if d.env.0.len() > 64 {
+            ctx.count("cover:table-over-64-entries");
+        }
+    }
     ctx.nontrivial(hash_str(&format!("native|{label}|{}", bytes.len())));
     ctx.sample(|| json!({"types": label, "bytes": hex(&bytes)}));
 }
 
-fn untyped_case(ctx: &mut Ctx, rng: &mut Rng, cfg: &TypeCfg) {
-    let env = gen_env(rng, cfg);
-    let n = rng.usize(4);
-    let cand = gen_types(rng, cfg, &env, n);
+/// Types whose type table has more than 64 entries (type references stop fitting one SLEB128 byte at 64).
+fn wide_types(rng: &mut Rng) -> (REnv, Vec<RType>) {
+    let prims = [RType::Nat8, RType::Text, RType::Int, RType::Bool, RType::Nat64, RType::Null, RType::Float32, RType::Principal];
+    let n = 65 + rng.usize(90);
+    let mut env = REnv::new();
+    match rng.below(4) {
+        0 => {
+            // one record whose fields have pairwise distinct record types
+            let fs = (0..n).map(|i| (i as u32 * 3 + 1, RType::record(vec![(1000 + i as u32, rng.pick(&prims).clone())]))).collect();
+            (env, vec![RType::record(fs)])
+        }
+        1 => {
+            // a tower of options (kept below the depth limits of model and decoder)
+            let mut t = rng.pick(&prims).clone();
+            for i in 0..n.min(100) {
+                t = if i % 7 == 3 { RType::vec(t) } else { RType::opt(t) };
+            }
+            (env, vec![t])
+        }
+        2 => {
+            // a chain of named definitions, each referring to the next
+            for i in 0..n {
+                let next = if i + 1 < n { RType::opt(RType::Ref(i + 1)) } else { rng.pick(&prims).clone() };
+                env.0.push(RType::record(vec![(0, next), (1 + i as u32, rng.pick(&prims).clone())]));
+            }
+            let k = rng.usize(n);
+            (env, vec![RType::Ref(0), RType::vec(RType::Ref(k))])
+        }
+        _ => {
+            // many arguments, each of its own variant type
+            let ts = (0..n).map(|i| RType::variant(vec![(i as u32, rng.pick(&prims).clone()), (5000 + i as u32, RType::Null)])).collect();
+            (env, ts)
+        }
+    }
+}
+
+fn untyped_case(ctx: &mut Ctx, rng: &mut Rng, cfg: &TypeCfg, wide: bool) {
+    let (env, cand) = if wide {
+        wide_types(rng)
+    } else {
+        let env = gen_env(rng, cfg);
+        let n = rng.usize(4);
+        let cand = gen_types(rng, cfg, &env, n);
+        (env, cand)
+    };
     let vg = ValGen::new(&env);
-    let mut fuel = *rng.pick(&[5i64, 25, 60]);
+    let mut fuel = if wide { 400 } else { *rng.pick(&[5i64, 25, 60]) };
     let mut ts = Vec::new();
     let mut vals = Vec::new();
     for t in cand {
@@ -146,8 +197,14 @@ fn untyped_case(ctx: &mut Ctx, rng: &mut Rng, cfg: &TypeCfg) {
             Err(_) => return,
         }
     }
+    // half of the cases give the encoder a hand-built spelling of the same values (see `hand_built`)
+    let hb = rng.bool();
+    if hb {
+        idl = idl.iter().map(|v| hand_built(rng, v)).collect();
+        ctx.count("cover:hand-built-values");
+    }
     let args = IDLArgs { args: idl };
-    let label = format!("env=[{env}] types={:?}", ts.iter().map(|t| t.to_string()).collect::<Vec<_>>());
+    let label: String = format!("env=[{env}] types={:?}", ts.iter().map(|t| t.to_string()).collect::<Vec<_>>()).chars().take(3000).collect();
     let detail = json!({"value": args.to_string().chars().take(800).collect::<String>(), "names": names.len()});
     // reserved positions read back as `reserved` regardless of the source value
     let want: Vec<RValue> = vals.clone();
@@ -159,6 +216,9 @@ fn untyped_case(ctx: &mut Ctx, rng: &mut Rng, cfg: &TypeCfg) {
             json!({"source": label, "detail": detail}),
         ),
         Ok(Ok(bytes)) => {
+            if decode(&bytes).map(|d| d.env.0.len() > 64).unwrap_or(false) {
+                ctx.count("cover:table-over-64-entries");
+            }
             if judge(ctx, "to_bytes_with_types", &bytes, &env, &ts, &want, &label, detail.clone()) {
                 if let Ok(Ok(again)) = catch(|| args.to_bytes_with_types(&cenv, &cts)) {
                     if again != bytes {
@@ -290,6 +350,8 @@ fn reserved_as_null(v: &RValue) -> RValue {
 
 pub fn run(ctx: &mut Ctx) {
     let cfg = TypeCfg::default();
-    ctx.cases("native-corpus", 0.5, native_case);
-    ctx.cases("untyped", 0.5, |ctx, rng| untyped_case(ctx, rng, &cfg));
+    ctx.cases("native-corpus", 0.45, |ctx, rng| native_case(ctx, rng, false));
+    ctx.cases("untyped", 0.45, |ctx, rng| untyped_case(ctx, rng, &cfg, false));
+    ctx.cases("native-wide-type-tables", 0.04, |ctx, rng| native_case(ctx, rng, true));
+    ctx.cases("untyped-wide-type-tables", 0.06, |ctx, rng| untyped_case(ctx, rng, &cfg, true));
 }
